@@ -89,6 +89,15 @@ void __verif_seq(int mode);
 #  define MUL_REPLAY() ((void)0)
 #endif
 
+/* IEEE operations of reference formulas: under cbmc they share circuits with the translated code (memo keyed by the operand bit patterns) */
+#if defined(__CPROVER__)
+float __verif_fop32(int op, float a, float b); double __verif_fop64(int op, double a, double b);
+#  define RF32(op, a, b) __verif_fop32(op, a, b)
+#  define RF64(op, a, b) __verif_fop64(op, a, b)
+#else
+#  define RF32(op, a, b) ((op) == 0 ? (float)(a) + (float)(b) : (op) == 1 ? (float)(a) - (float)(b) : (op) == 2 ? (float)(a) * (float)(b) : (float)(a) / (float)(b))
+#  define RF64(op, a, b) ((op) == 0 ? (double)(a) + (double)(b) : (op) == 1 ? (double)(a) - (double)(b) : (op) == 2 ? (double)(a) * (double)(b) : (double)(a) / (double)(b))
+#endif
 /* exact-size heap block for harness inputs (see rt_alloc in verif_rt.c) */
 #if defined(__CPROVER__)
 u8* __verif_alloc_exact(u64 n);
